@@ -206,6 +206,14 @@ def generate(seed: int, tier: str) -> dict:
             # an input withdrawn: one definition period, a long period tiled by them, or
             # everything (what was withdrawn is "not set before" for the inputs that follow)
             per = None if chance(orr, 0.2) else _era(pick(orr, SHORT[u] if (u == "year" or chance(orr, 0.5)) else LONG[u]), era)
+            earlier = [o["do"][2] for o in ops if o["do"][0] == "set_input" and o["do"][1] == v["name"]]
+            if per is not None and earlier and chance(orr, 0.7):
+                # ... preferably something that was set: the period of an earlier input, or
+                # one of its pieces (the first, the last, any)
+                per = pick(orr, earlier)
+                pieces = sub_periods(per, u)
+                if u != "year" and len(pieces) > 1 and chance(orr, 0.6):
+                    per = pick(orr, [pieces[0], pieces[-1], pieces[-1], pick(orr, pieces)])
             ops.append({"actor": pick(orr, writers), "do": ["delete_arrays", v["name"], per]})
             continue
         if per is None:
@@ -583,7 +591,7 @@ def run(scn) -> Result:
                         _adopt_memoised(sim, env, var, m)
                 elif kind == "delete_arrays":
                     out = apply_op(sim, world, do, form=form_of(do, step))
-                    gone = list(m.store) if do[2] is None else [s for s in sub_periods(do[2], spec["unit"]) if s in m.store]
+                    gone = list(m.store) if do[2] is None else [s for s in m.store if _within(s, do[2])]
                     for s in gone:
                         del m.store[s]
                     H.add(op["actor"], kind, do[1:], canon_outcome(out), sorted(gone))
@@ -621,6 +629,13 @@ def run(scn) -> Result:
     finally:
         world.close()
         seams.Env.uninstall()
+
+
+def _within(inner: str, outer: str) -> bool:
+    """Does the period `inner` lie within `outer` (own calendar)?"""
+    ui, si, ni = parse_period(inner)
+    uo, so, no = parse_period(outer)
+    return so <= si and end_exclusive(ui, si, ni) <= end_exclusive(uo, so, no)
 
 
 def _adopt_memoised(sim, env, var, m):
